@@ -344,6 +344,17 @@ def case(ctx):
         case.violate("`B in A` is %r, the region B %s a subset of A (%s; %s; boundaries %s)" % (
             got, "is" if truth else "is not", source, how, cls["class"]), kinds=[rb[0], ra[0]])
         return case.finish()
+    # ---- closed curve of B against A, both flags, when the construction separates them clearly ------
+    if mode == "constructed" and defined and expected is not None and not cls["contact"] and cls["class"] == "apart" and \
+            len(B.jordans) == 1 and any(k in how for k in ("contracted", "dilated", "far away", "tight", "rectangle")):
+        J = B.jordans[0]
+        for flag in (True, False):
+            r, exc = call(A.contains_jordan, J, flag)
+            case.count("subset:curve-judged")
+            if exc is not None:
+                case.violate("contains_jordan(J, boundary=%r) raised %s (%s)" % (flag, exc_text(exc), how))
+            elif bool(r) != truth:
+                case.violate("contains_jordan(J, boundary=%r) is %r for the boundary J of B; %s, boundaries apart" % (flag, r, how))
     # ---- reflexivity and consequences ---------------------------------------------------------
     for name, X in (("A", A), ("B", B)):
         r, exc = call(lambda: X in X)
